@@ -621,13 +621,15 @@ func specMaxInt(a, b int) int {
 // @ spec
 func specRLStateOK(s RateLimitedTokenRequestState) bool {
 	return specSuiteOK(s.nameKey.suite) && s.verificationKey != nil && VStKey(s.verifier) == s.verificationKey &&
-		VStMsg(s.verifier) == string(s.tokenInput) && len(s.tokenInput) == 98
+		VStMsg(s.verifier) == string(s.tokenInput)
 }
 
 // A finalization succeeds only if the response is long enough to hold the response nonce, opens under the
 // key and nonce derived from this request's encapsulated key and exported secret, and the unblinded
-// signature verifies (RSASSA-PSS, SHA-384) under the pinned key over this request's token input. Nothing of
-// the caller's (the response, the request) is written.
+// signature verifies (RSASSA-PSS, SHA-384) under the pinned key over this request's token input; for every
+// state (whatever the lengths of the nonce and key id it was created with) the token that is returned
+// verifies under the pinned key over its own fields. Nothing of the caller's (the response, the request) is
+// written.
 //
 //@ func (s RateLimitedTokenRequestState) FinalizeToken(encryptedtokenResponse []byte) (token tokens.Token, err error)
 //@ props C02 C03 C16
@@ -642,9 +644,10 @@ func specRLStateOK(s RateLimitedTokenRequestState) bool {
 //@ let sig = BRSAFinal(s.verificationKey, VStR(s.verifier), bs)
 //@ ensures[C02] err == nil ==> len(resp) >= nn && AEADOpenOK(AEADIdOf(s.nameKey.suite.AEAD), key, nonce, resp[nn:], "")
 //@ ensures[C02] err == nil ==> PSSVerify(s.verificationKey, SHA384(in), sig)
-//@ ensures[C02] err == nil ==> tokens.SpecTokenInput(token.TokenType, string(token.Nonce), string(token.Context), string(token.KeyID)) == in && string(token.Authenticator) == sig
+//@ ensures[C02] err == nil && len(s.tokenInput) == 98 ==> tokens.SpecTokenInput(token.TokenType, string(token.Nonce), string(token.Context), string(token.KeyID)) == in && string(token.Authenticator) == sig
+//@ ensures[C02] err == nil ==> PSSVerify(s.verificationKey, SHA384(tokens.SpecTokenInput(token.TokenType, string(token.Nonce), string(token.Context), string(token.KeyID))), string(token.Authenticator))
 //@ assigns spare(s.tokenInput)
-//@ alloc 16*len(encryptedtokenResponse) + 16*len(s.encapEnc) + 8192
+//@ alloc 16*len(encryptedtokenResponse) + 16*len(s.encapEnc) + 16*len(s.tokenInput) + 8192
 //@ end
 
 // specSenderCtx: the HPKE context a client obtains for the issuer's public name key and encapsulated key enc.
